@@ -7,7 +7,7 @@ from vmon.core import exc_detail, exc_mech, rng_for
 PROPERTY = 'C18'
 RULE = ('one case per generated batch: lanes draw a kind (linear, cubic with flat root, tanh, expm1, '
         'steep/shallow), slope 1e-6..1e6, root position (interior, at either bracket end, near an end), '
-        'bracket width 1e-3..1e6 and offset; batch sizes 1,2,17,200,1000; both solvers; oracle per lane: '
+        'bracket width 1e-3..1e6 and offset; batch sizes 1,2,17,200,1000; zero-width brackets at a root mixed with ordinary lanes; both solvers; oracle per lane: '
         'finite, inside bracket, sign change of f at x +/- tol (bisect 1e-8; chandrupatla 1e-9*width or '
         'f(x)==0), same lane alone / in a permuted or recomposed batch agrees within tolerance, every '
         'evaluation inside the bracket, evaluation count <= maxiter+2; invalid brackets must raise; '
@@ -39,6 +39,9 @@ def cases(seed, tier):
     for r in range(12 if tier == 'quick' else 150):
         out.append({'mode': 'int-bracket', 'solver': 'bisect' if r % 2 else 'chandrupatla', 'size': int(rng.choice([1, 3, 40])),
                     'seed': int(rng.integers(1 << 31))})
+    for r in range(16 if tier == 'quick' else 300):
+        out.append({'mode': 'zero-width', 'solver': 'bisect' if r % 2 else 'chandrupatla',
+                    'size': int(rng.choice([1, 2, 7, 80])), 'seed': int(rng.integers(1 << 31))})
     for r in range(6 if tier == 'quick' else 60):
         out.append({'mode': 'kde', 'solver': 'bisect' if r % 2 else 'chandrupatla', 'size': 40,
                     'seed': int(rng.integers(1 << 31))})
@@ -231,6 +234,22 @@ def run_case(spec, ctx):
         judge(ctx, solver, lanes, np.asarray(x, dtype=float), where)
         ctx.check(np.array_equal(grid, g0), 'root.bracket-untouched', 'C18:%s-modifies-bracket-arrays' % solver, where)
         ctx.nontriv('overlap|%s|%d' % (solver, spec['seed']))
+        return
+    if spec['mode'] == 'zero-width':
+        # degenerate but valid brackets: xmin == xmax == root (f(xmin) <= 0 <= f(xmax) holds with equality)
+        lanes = Lanes(rng, size, True)
+        z = rng.random(size) < (1.0 if size == 1 else 0.4)
+        z[int(rng.integers(size))] = True
+        lanes.xmin = np.where(z, lanes.root, lanes.xmin)
+        lanes.xmax = np.where(z, lanes.root, lanes.xmax)
+        lanes.reset()
+        x = solve(ctx, solver, lanes, where)
+        if x is None:
+            return
+        judge(ctx, solver, lanes, x, dict(where, zero_width_lanes=int(z.sum())))
+        ctx.check(bool((x[z] == lanes.root[z]).all()), 'root.zero-width-bracket', 'C18:%s-zero-width-lane-not-returned' % solver,
+                  lambda: dict(where, zero_width_lanes=int(z.sum()), returned=x[z][:3], bracket=lanes.root[z][:3]))
+        ctx.nontriv('zero|%s|%d' % (solver, spec['seed']))
         return
     if spec['mode'] == 'int-bracket':
         # brackets whose ends are whole numbers, passed as integer arrays (or lists of ints)
